@@ -1,0 +1,69 @@
+//! Verification hooks. Compiled only with `--cfg folo_verif`; never part of a normal build.
+//!
+//! Two things live here:
+//!
+//! * a thread-local override of the per-slab capacity, consulted by `SlabLayout::new()`, so that a
+//!   harness can make slabs hold 1, 2 or 3 objects and cross slab boundaries (and the 64-slab block
+//!   boundary of the vacancy map) within a few operations;
+//! * plain-data snapshots of the internal state of a `RawOpaquePool` (`verif_probe()` on every pool
+//!   type returns them). The probes are read-only and allocate only their own result.
+
+use std::alloc::Layout;
+use std::cell::Cell;
+use std::num::NonZero;
+
+thread_local! {
+    static CAPACITY_OVERRIDE: Cell<Option<NonZero<usize>>> = const { Cell::new(None) };
+}
+
+/// Sets (or with `None` / `Some(0)` clears) the slab capacity used by every pool that is created
+/// on this thread from now on. Pools that already exist keep the capacity they were created with.
+pub fn set_slab_capacity_override(capacity: Option<usize>) {
+    CAPACITY_OVERRIDE.with(|c| c.set(capacity.and_then(NonZero::new)));
+}
+
+/// The override currently in force on this thread, if any.
+#[must_use]
+pub fn slab_capacity_override() -> Option<NonZero<usize>> {
+    CAPACITY_OVERRIDE.with(Cell::get)
+}
+
+/// Snapshot of one slab.
+#[derive(Clone, Debug)]
+pub struct SlabProbe {
+    /// Address of the first slot (start of the slab's heap block).
+    pub base: usize,
+    /// The slab's cached count of occupied slots.
+    pub count: usize,
+    /// Head of the free list (`>= capacity` when the slab considers itself full).
+    pub free_head: usize,
+    /// Per slot: `None` = occupied, `Some(next)` = vacant with that free-list successor.
+    pub slots: Vec<Option<usize>>,
+}
+
+/// Snapshot of a `RawOpaquePool`.
+#[derive(Clone, Debug)]
+pub struct PoolProbe {
+    /// Layout of the objects the pool stores.
+    pub object_layout: Layout,
+    /// Slots per slab.
+    pub slab_capacity: usize,
+    /// Layout of one slot (size = stride between consecutive slots).
+    pub slot_layout: Layout,
+    /// Offset from the start of a slot to the object stored in it.
+    pub slot_to_object_offset: usize,
+    /// Layout of the slot metadata that sits at the start of every slot.
+    pub slot_meta_layout: Layout,
+    /// Layout of the heap block of one slab.
+    pub slab_alloc_layout: Layout,
+    /// The pool's cached length.
+    pub length: usize,
+    /// One entry per slab, in slab index order.
+    pub slabs: Vec<SlabProbe>,
+    /// Number of bits the vacancy map considers valid.
+    pub vacancy_len_bits: usize,
+    /// Raw storage blocks of the vacancy map (bit i of block b = slab 64*b+i has a vacancy).
+    pub vacancy_blocks: Vec<u64>,
+    /// Cached index of the lowest slab with a vacancy.
+    pub next_vacancy: Option<usize>,
+}
